@@ -75,6 +75,9 @@ impl ObjModule {
 }
 
 // std HashMap<Gc<ObjString>, Root<RefCell<ObjModule>>> by contract; keys compared by cell identity
+//@const file=yarel/src/common.rs name=FRAMES_MAX
+pub struct FrameStub { }
+pub struct FiberView { pub frames: Vec<FrameStub> }
 pub struct ModMap { pub ghost view: Map<int, Root<RefCell<ObjModule>>> }
 impl ModMap {
     #[verifier::external_body]
@@ -207,6 +210,12 @@ impl Vm {
     #[verifier::external_body]
     fn new_root_obj_closure(&mut self, function: Gc<ObjFunction>, module: Gc<RefCell<ObjModule>>) -> (r: Root<ObjClosure>)
         ensures closure_module(r.gc()) == module, old(self).same_registry(final(self)), old(self).same_env(final(self)), final(self).stack == old(self).stack, final(self).raised == old(self).raised
+    { unimplemented!() }
+    // the active fiber as far as this unit is concerned: how many call frames it has (`frames_full` is that count
+    // having reached FRAMES_MAX: unit calls, call_closure)
+    #[verifier::external_body]
+    fn active_fiber(&self) -> (r: &FiberView)
+        ensures (r.frames@.len() >= FRAMES_MAX) == self.frames_full, r.frames@.len() <= FRAMES_MAX
     { unimplemented!() }
     // starting the module body (a closure call); whatever it does later happens in the interpreter loop, not here.
     // Its own contract is calls/Vm::call_closure: with FRAMES_MAX frames already active the call is REFUSED — an
